@@ -102,7 +102,7 @@ func (d *D) Base(idx int, ctx *core.Ctx) *core.Scenario {
 		sc.Kind = "l1:anywrap"
 		sc.Inputs, sc.Events = nil, nil
 	}
-	if idx%17 == 9 {
+	if idx%17 == 9 || idx%23 == 11 {
 		sc.Program, sc.Events = work.MapLife(r)
 		sc.Kind = "l1:maplife"
 		sc.Inputs = nil
